@@ -1,14 +1,16 @@
 package main
 
 import (
+	"fmt"
 	"go/token"
+	"strings"
 
 	"golang.org/x/tools/go/ssa"
 )
 
 func init() {
 	register("C41", []string{"./objstorage/objstorageprovider", "./objstorage/objstorageprovider/remoteobjcat", "./record"}, runC41)
-	propExplain["C41"] = "Decides the ordering clause of C41 in the object provider: sharedUnref deletes its own reference marker (or finds it already gone) before it lists the remaining markers, and deletes the shared object only through the nil-error edge of that listing and only on the branch where the listing is empty; AttachRemoteObjects creates its own reference before it checks the origin's marker, registers the objects only if that check returned no error, and drops its reference when the check fails; the catalog replay tells a torn tail from corruption by identity comparison (err == io.EOF, record.IsInvalidRecord), so no function below record.Reader.Next returns a wrapped error. Does not decide the remote store's consistency model."
+	propExplain["C41"] = "Decides the ordering clause of C41 in the object provider: sharedUnref deletes its own reference marker (or finds it already gone) before it lists the remaining markers, and deletes the shared object only through the nil-error edge of that listing and only on the branch where the listing is empty; AttachRemoteObjects creates its own reference before it checks the origin's marker, registers the objects only if that check returned no error, and drops its reference when the check fails; the catalog replay tells a torn tail from corruption by identity comparison (err == io.EOF, record.IsInvalidRecord), so no function below record.Reader.Next returns a wrapped error. (E1) the error of every call on remote.Storage, and of Write/Close on a writer it handed out, is consumed inside the object provider. Does not decide the remote store's consistency model."
 }
 
 func argFromCall(idx int, short string) M {
@@ -29,6 +31,30 @@ func argFromCall(idx int, short string) M {
 }
 
 func runC41(c *Ctx) {
+	// C41.E1: the reference markers and objects on the shared store are what "no other store still
+	// references this object" is decided from; the error of every mutating / listing call on
+	// remote.Storage, and of Write/Close on a writer it handed out (Close is where a blob store
+	// uploads), is consumed — a failed marker upload reported as success lets the creator delete an
+	// object a "successfully attached" provider still uses.
+	{
+		st := c.Iface("C41.E1", "remote.Storage")
+		writerFromCreate := Pred("Write/Close on the writer returned by CreateObject", func(in ssa.Instruction) bool {
+			cc := getCallCommon(in)
+			if cc == nil {
+				return false
+			}
+			ci := infoOfCommon(cc)
+			if (ci.Short != "Close" && ci.Short != "Write") || ci.Recv == nil {
+				return false
+			}
+			return len(derivesFrom(ci.Recv, CallPred("CreateObject", ""), 4)) > 0
+		})
+		m := Or(ImplCall(st, "remote.Storage", "CreateObject", "Delete", "List", "Size", "ReadObject", "IsNotExistError"), writerFromCreate)
+		inProvider := func(path string) bool { return strings.HasPrefix(path, pkgAlias["osp"]) }
+		if n := c.ErrFlow("C41.E1", m, inProvider, nil); n < 8 {
+			c.Unresolved("C41.E1", fmt.Sprintf("only %d calls on the shared store found in the object provider", n))
+		}
+	}
 	// C41.E2: the shared-object catalog is replayed like the MANIFEST: a torn tail is told from
 	// corruption by identity comparison, so the reader hands its sentinels on unwrapped.
 	if fn := c.Fn("C41.E2", "osp/remoteobjcat.(*Catalog).loadFromCatalogFile"); fn != nil {
